@@ -136,6 +136,9 @@ def main():
     M = "vf.ch.h_c16"
     conds = [Cond(M, "check_iff3", "EpochManager accepts a schedule of <= 3 epochs iff it is valid; handed-out epoch states carry consecutive indices and prefix-sum start times", 300),
              Cond(M, "check_append_later", "appending an epoch after epochs were handed out is accepted iff the extended schedule is valid", 300),
+             *[Cond(M, "check_append_sequence", f"two appends in a row on a live manager (constructor schedule of {ncf} epoch(s){', the last of type ' + str(lt) if lt >= 0 else ''}): each accepted iff the schedule "
+                    "accepted so far extended by it is valid (a rejected append leaves no trace); handed-out states follow the accepted schedule", 600,
+                    env={"NCF": str(ncf), "LASTT": str(lt)}, signature=f"check_append_sequence:{ncf}:{lt}") for ncf, lt in ((1, -1), (2, 1), (2, 2), (2, 3), (2, 4))],
              Cond(M, "check_stan", "stan_epochs (warmup <= 3000): valid schedule, fast / doubling-slow / fast pattern, warmup durations sum to the request, one posterior epoch", 300),
              Cond(M, "check_stan_rejects", "stan_epochs raises ValueError for a warmup shorter than 20 or than init + term + base", 120)]
     conds.append(Cond("vf.ch.h_builder", "check_chunk", "EngineBuilder.build: the JIT chunk length handed to the engine divides every epoch duration (three symbolic durations <= 24; math.gcd re-bound to a pure-Python Euclid)", 300))
